@@ -36,6 +36,7 @@ type conf struct {
 	objMax  int32  // ObjQueueMax (0: default): calls beyond it are rejected at once
 	// every caller has its own ServantProxy object for the same remote object
 	ownProxies bool
+	slowMs     int // peer "late-then-slow"
 	// peer "late-then-ok": the first request is answered lateBy ms after its deadline (may be negative or 0),
 	// every later request at once; each caller issues a second call `gap` ms after its first one returned
 	lateBy int
@@ -228,6 +229,19 @@ func serveConn(c conf, conn *vnet.TCPConn, start int64) {
 					conn.Write(ok)
 					vm.Log("server late reply id=%d", q.ID)
 				})
+			case "late-then-slow":
+				// first request: answered lateBy ms after its deadline; later ones: after slowMs, so that they
+				// are pending when the late reply arrives
+				q := q
+				at := vm.Now() + int64(c.slowMs)*1e6
+				if nreq == 1 {
+					at = vm.Now() + int64(c.timeout+c.lateBy)*1e6
+				}
+				vm.GoNamed("late-reply", func() {
+					vm.Sleep(at - vm.Now())
+					conn.Write(ok)
+					vm.Log("server reply id=%d", q.ID)
+				})
 			case "silent":
 			case "late":
 				q := q
@@ -289,7 +303,7 @@ func check(c conf, r *vm.Result) string {
 			if kind == "wrongreply" {
 				msgs = append(msgs, "call-returned-the-reply-of-another-call:"+c.peer+"\n"+o)
 			}
-			if c.peer == "late-then-ok" {
+			if c.peer == "late-then-ok" || c.peer == "late-then-slow" {
 				// the first call may succeed only if its reply was not late; every other call must succeed
 				if i == 0 && kind == "ok" && c.lateBy > 0 {
 					msgs = append(msgs, "call-succeeded-with-a-reply-sent-after-its-deadline")
@@ -401,6 +415,18 @@ func main() {
 	for _, p := range []string{"silent", "ok", "late", "close-after-request"} {
 		add(conf{name: "own-proxies", peer: p, src: "config", callers: 2, timeout: 400, dialMs: 300, writeMs: 1000, ownProxies: true, stagger: 30}, 1, false)
 		add(conf{name: "own-proxies", peer: p, src: "ctx", callers: 3, timeout: 400, dialMs: 300, writeMs: 1000, ownProxies: true, stagger: 30}, 0, false)
+	}
+	// the late reply to a timed-out call of one proxy object arrives while a call of another proxy object (or of
+	// the same one) is pending on the same connection
+	for _, own := range []bool{true, false} {
+		for _, by := range []int{1, 50} {
+			nm := "late reply while another call is pending"
+			if own {
+				nm += ", own-proxies"
+			}
+			add(conf{name: nm, peer: "late-then-slow", src: "config", callers: 2, timeout: 400, dialMs: 300, writeMs: 1000, ownProxies: own, stagger: 300, lateBy: by, slowMs: 300}, 1, false)
+			add(conf{name: nm, peer: "late-then-slow", src: "ctx", callers: 3, timeout: 400, dialMs: 300, writeMs: 1000, ownProxies: own, stagger: 150, lateBy: by, slowMs: 300}, 0, false)
+		}
 	}
 	// one-way calls against every peer: sent or failed, they return at once and leave nothing behind
 	for _, p := range []string{"ok", "silent", "close-on-accept", "refuse", "blackhole"} {
